@@ -32,7 +32,22 @@ YCC = 'glm/gtx/color_space_YCoCg.inl'
 
 # contracts that are known to be out of reach of the solvers (kept as documentation, never run): name -> reason
 LEFT_OUT = {}
-THOROUGH = set()
+# measured with VERIF_JOBS=8 on the shared machine: luminosity_bits f32 19..75 s, f64 320 s (timeout 900); YCoCgR2rgb_i64 67 s
+THOROUGH = {'glm_luminosity_bits_f32', 'glm_luminosity_bits_f64', 'glm_YCoCgR2rgb_i64'}
+
+
+def doc_luminosity_weights():
+    """the three ratios printed in the documentation comment of glm::luminosity (glm/gtx/color_space.hpp of the tree under
+    verification): 'Compute color luminosity associating ratios (0.33, 0.59, 0.11) to RGB canals.'"""
+    import os, re
+    repo = os.environ.get('VERIF_REPO', '/repo')
+    m = re.search(r'luminosity associating ratios \(([0-9.]+), ([0-9.]+), ([0-9.]+)\) to RGB', open(os.path.join(repo, 'glm/gtx/color_space.hpp')).read())
+    if not m:
+        raise RuntimeError('C19: the documentation of glm::luminosity no longer states its three ratios')
+    return [float(x) for x in m.groups()]
+
+
+DOC_LUMINOSITY_WEIGHTS = doc_luminosity_weights()
 
 
 def R(fn, real, **kw):
@@ -78,8 +93,10 @@ for tag, (cpp, n, sg) in INT_TYPES.items():
         d.shim('glm_YCoCgR_roundtrip_depth_' + tag, 'void', c, 'auto r = glm::YCoCgR2rgb(glm::rgb2YCoCgR(%s)); %s' % (mk, vec_store(3, 'r')), outs=[(cpp, 'out', 3)])
         F('glm_YCoCgR_roundtrip_depth_' + tag, 'glm::YCoCgR2rgb(glm::rgb2YCoCgR(vec<3,%s>))  %s  [%d-bit colour depth, signed overflow = poison]' % (cpp, YCC, n - 1),
           requires=depth, ensures=ident3, poison_flags=True)
-        F('glm_rgb2YCoCgR_' + tag, 'glm::rgb2YCoCgR(vec<3,%s>)  compute_YCoCgR<T,Q,true>  %s  [%d-bit colour depth, signed overflow = poison]' % (cpp, YCC, n - 1),
-          requires=depth, poison_flags=True,
+        # (the specification functions compute r + b on s64, so for the 64-bit type the value clauses stop at 62 bits)
+        vdepth = depth if n < 64 else [('channels_within_62_bits', ' && '.join('(s64)c%d >= 0 && (s64)c%d < ((s64)1 << 62)' % (i, i) for i in range(3)))]
+        F('glm_rgb2YCoCgR_' + tag, 'glm::rgb2YCoCgR(vec<3,%s>)  compute_YCoCgR<T,Q,true>  %s  [%d-bit colour depth, signed overflow = poison]' % (cpp, YCC, min(n - 1, 62)),
+          requires=vdepth, poison_flags=True,
           ensures=[('Y_is_floor_of_g_plus_floor_of_r_plus_b_halved_halved', '(s64)(%s)out[0] == colspec_ycocgr_y(%s)' % (S, args)),
                    ('Co_is_r_minus_b', '(s64)(%s)out[1] == colspec_ycocgr_co(%s)' % (S, args)),
                    ('Cg_is_g_minus_floor_of_r_plus_b_halved', '(s64)(%s)out[2] == colspec_ycocgr_cg(%s)' % (S, args)),
@@ -93,6 +110,26 @@ for tag, (cpp, n, sg) in INT_TYPES.items():
           ensures=[('G_is_Cg_plus_t', '(s64)(%s)out[1] == (s64)(%s)c2 + %s' % (S, S, T_)),
                    ('B_is_t_minus_floor_half_Co', '(s64)(%s)out[2] == %s - colspec_floor_half((s64)(%s)c1)' % (S, T_, S)),
                    ('R_is_B_plus_Co', '(s64)(%s)out[0] == %s - colspec_floor_half((s64)(%s)c1) + (s64)(%s)c1' % (S, T_, S, S))])
+    else:
+        # unsigned element types cannot hold negative Co / Cg: the intermediate triple is the YCoCg-R triple of the paper exactly when
+        # R >= B and G >= floor((R + B) / 2) (then Co, Cg >= 0); stated for n-1 bit channels so that the specification's r + b fits
+        U = 'u%d' % n
+        nb = min(n - 1, 62)     # the specification adds r + b on s64
+        top = '((u64)1 << %d)' % nb
+        args = ', '.join('(s64)c%d' % i for i in range(3))
+        F('glm_rgb2YCoCgR_' + tag, 'glm::rgb2YCoCgR(vec<3,%s>)  compute_YCoCgR<T,Q,true>  %s  [Co, Cg >= 0, channels < 2^%d]' % (cpp, YCC, nb),
+          requires=[('channels_below_2_pow_%d' % nb, ' && '.join('(u64)c%d < %s' % (i, top) for i in range(3))),
+                    ('Co_and_Cg_representable_as_unsigned', 'c0 >= c2 && (s64)c1 >= colspec_ycocgr_t(%s)' % args)],
+          ensures=[('Y_is_floor_of_g_plus_floor_of_r_plus_b_halved_halved', '(s64)out[0] == colspec_ycocgr_y(%s)' % args),
+                   ('Co_is_r_minus_b', '(s64)out[1] == colspec_ycocgr_co(%s)' % args),
+                   ('Cg_is_g_minus_floor_of_r_plus_b_halved', '(s64)out[2] == colspec_ycocgr_cg(%s)' % args)])
+        T_ = '((s64)c0 - colspec_floor_half((s64)c2))'
+        F('glm_YCoCgR2rgb_' + tag, 'glm::YCoCgR2rgb(vec<3,%s>)  compute_YCoCgR<T,Q,true>  %s  [Y, Co, Cg < 2^%d, no negative intermediate]' % (cpp, YCC, n - 2),
+          requires=[('operands_below_2_pow_%d' % (n - 2), ' && '.join('(u64)c%d < ((u64)1 << %d)' % (i, n - 2) for i in range(3))),
+                    ('t_and_B_not_negative', '%s >= colspec_floor_half((s64)c1)' % T_)],
+          ensures=[('G_is_Cg_plus_t', '(s64)out[1] == (s64)c2 + %s' % T_),
+                   ('B_is_t_minus_floor_half_Co', '(s64)out[2] == %s - colspec_floor_half((s64)c1)' % T_),
+                   ('R_is_B_plus_Co', '(s64)out[0] == %s - colspec_floor_half((s64)c1) + (s64)c1' % T_)])
 
 # ======================================================================================================================
 # float / double instantiations
@@ -137,10 +174,12 @@ for tag, bits, pw, one, zero in (('f32', 'll2c_f32_bits', 'LL2C_LIBM_powf', '1.0
     shim_v('glm_YCoCgR_roundtrip_' + tag, 3, c3, 'glm::YCoCgR2rgb(glm::rgb2YCoCgR(%s))' % mk3)
     shim_v('glm_YCoCgR_roundtrip_inv_' + tag, 3, c3, 'glm::rgb2YCoCgR(glm::YCoCgR2rgb(%s))' % mk3)
     IDENT = [('is_identity', 'And(eqv(out, %s))' % lst(C3))]
+    INCUBE = 'And([And(x >= 0, x <= 1) for x in %s])' % lst(C3)
     R('glm_rgb2YCoCg_' + tag, 'glm::rgb2YCoCg(vec3)  ' + YCC,
       ensures=[('Y_is_quarter_r_half_g_quarter_b', 'out[0] == c0 / 4 + c1 / 2 + c2 / 4'),
                ('Co_is_half_r_minus_half_b', 'out[1] == c0 / 2 - c2 / 2'),
-               ('Cg_is_half_g_minus_quarter_r_minus_quarter_b', 'out[2] == c1 / 2 - c0 / 4 - c2 / 4')])
+               ('Cg_is_half_g_minus_quarter_r_minus_quarter_b', 'out[2] == c1 / 2 - c0 / 4 - c2 / 4'),
+               ('rgb_cube_maps_into_0_1_times_half_box', 'Implies(%s, And(out[0] >= 0, out[0] <= 1, 2 * out[1] >= -1, 2 * out[1] <= 1, 2 * out[2] >= -1, 2 * out[2] <= 1))' % INCUBE)])
     R('glm_YCoCg2rgb_' + tag, 'glm::YCoCg2rgb(vec3)  ' + YCC,
       ensures=[('R_is_Y_plus_Co_minus_Cg', 'out[0] == c0 + c1 - c2'), ('G_is_Y_plus_Cg', 'out[1] == c0 + c2'),
                ('B_is_Y_minus_Co_minus_Cg', 'out[2] == c0 - c1 - c2')])
@@ -149,7 +188,8 @@ for tag, bits, pw, one, zero in (('f32', 'll2c_f32_bits', 'LL2C_LIBM_powf', '1.0
     R('glm_rgb2YCoCgR_' + tag, 'glm::rgb2YCoCgR(vec3)  compute_YCoCgR<T,Q,false>  ' + YCC,
       ensures=[('Y_is_quarter_r_half_g_quarter_b', 'out[0] == c0 / 4 + c1 / 2 + c2 / 4'),
                ('Co_is_r_minus_b', 'out[1] == c0 - c2'),
-               ('Cg_is_g_minus_mean_of_r_and_b', 'out[2] == c1 - (c0 + c2) / 2')])
+               ('Cg_is_g_minus_mean_of_r_and_b', 'out[2] == c1 - (c0 + c2) / 2'),
+               ('rgb_cube_maps_into_0_1_times_unit_box', 'Implies(%s, And(out[0] >= 0, out[0] <= 1, out[1] >= -1, out[1] <= 1, out[2] >= -1, out[2] <= 1))' % INCUBE)])
     R('glm_YCoCgR2rgb_' + tag, 'glm::YCoCgR2rgb(vec3)  compute_YCoCgR<T,Q,false>  ' + YCC,
       ensures=[('G_is_Y_plus_half_Cg', 'out[1] == c0 + c2 / 2'), ('B_is_Y_minus_half_Cg_minus_half_Co', 'out[2] == c0 - c2 / 2 - c1 / 2'),
                ('R_is_B_plus_Co', 'out[0] == c0 - c2 / 2 + c1 / 2')])
@@ -159,11 +199,12 @@ for tag, bits, pw, one, zero in (('f32', 'll2c_f32_bits', 'LL2C_LIBM_powf', '1.0
     # ------------------------------------------------------------------------------------------------------------------
     # 3. gtx/color_space: luminosity, saturation
     # ------------------------------------------------------------------------------------------------------------------
-    LW = [0.33, 0.59, 0.11]          # documentation of glm::luminosity
+    LW = DOC_LUMINOSITY_WEIGHTS      # documentation of glm::luminosity
     d.shim('glm_luminosity_' + tag, T, c3, 'return glm::luminosity(%s);' % mk3)
     R('glm_luminosity_' + tag, 'glm::luminosity(vec3)  ' + GTX,
-      ensures=[('is_dot_with_documented_weights_0_33_0_59_0_11', 'RESULT == dot(%s, %s)' % (lst(C3), lst(L(w) for w in LW))),
-               ('grey_level_preserved', 'Implies(And(c0 == c1, c1 == c2), RESULT == c0)')])
+      ensures=[('is_dot_with_the_documented_weights', 'RESULT == dot(%s, %s)' % (lst(C3), lst(L(w) for w in LW))),
+               # "preserve grey levels": luminosity(v, v, v) = v, to the accuracy of three two-digit weights rounded to T
+               ('grey_level_preserved_to_1e_minus_6_relative', 'Implies(And(c0 == c1, c1 == c2), absr(RESULT - c0) <= absr(c0) / 10**6)')])
     d.shim('glm_luminosity_bits_' + tag, T, c3, 'return glm::luminosity(%s);' % mk3)
     F('glm_luminosity_bits_' + tag, 'glm::luminosity(vec3)  bit-exact  ' + GTX, uf_float=('fmul',),
       ensures=[('is_the_float_sum_of_the_three_weighted_channels',
@@ -176,9 +217,7 @@ for tag, bits, pw, one, zero in (('f32', 'll2c_f32_bits', 'LL2C_LIBM_powf', '1.0
     M = 'mat(out, 4, 4)'
     LUMA_PROJ = '[[%s] * 3, [%s] * 3, [%s] * 3]' % tuple(L(w) for w in SW)      # column c = (w_c, w_c, w_c)
     # float: the three binary32 weights sum to exactly 1; double: the three binary64 weights sum to 1 - 2^-54.6 (4.2e-17)
-    rowsum = (lambda r: '%s[0][%d] + %s[1][%d] + %s[2][%d]' % (M, r, M, r, M, r))
     if tag == 'f32':
-        GREYROW = 'And([%s == 1 for r in range(3)])' % rowsum(0).replace('[0]', '[r]', 1).replace('][0]', '][r]')
         GREYROW = 'And([%s[0][r] + %s[1][r] + %s[2][r] == 1 for r in range(3)])' % (M, M, M)
     else:
         GREYROW = 'And([absr(%s[0][r] + %s[1][r] + %s[2][r] - 1) <= absr(1 - s) / 10**16 for r in range(3)])' % (M, M, M)
@@ -217,10 +256,12 @@ for tag, bits, pw, one, zero in (('f32', 'll2c_f32_bits', 'LL2C_LIBM_powf', '1.0
                ('saturation_in_unit_interval', 'And(out[1] >= 0, out[1] <= 1)'),
                ('saturation_is_max_minus_min_over_max_unless_black_to_epsilon', 'Implies(%s > %s, out[1] * %s == %s)' % (MAX, EPS, MAX, DELTA)),
                ('hue_in_0_360', 'And(out[0] >= 0, out[0] < 360)'),
-               ('hue_red_sector', 'Implies(c0 == %s, Or(out[0] * %s == 60 * (c1 - c2), (out[0] - 360) * %s == 60 * (c1 - c2)))' % (MAX, DELTA, DELTA)),
-               ('hue_green_sector', 'Implies(And(c1 == %s, c0 < %s - %s), out[0] * %s == 120 * %s + 60 * (c2 - c0))' % (MAX, MAX, EPS, DELTA, DELTA)),
-               ('hue_blue_sector', 'Implies(And(c2 == %s, c0 < %s - %s, c1 < %s - %s), out[0] * %s == 240 * %s + 60 * (c0 - c1))' % (
-                   MAX, MAX, EPS, MAX, EPS, DELTA, DELTA))])
+               ('hue_red_sector', 'Implies(And(%s > %s, c0 == %s), Or(out[0] * %s == 60 * (c1 - c2), (out[0] - 360) * %s == 60 * (c1 - c2)))' % (
+                   MAX, EPS, MAX, DELTA, DELTA)),
+               ('hue_green_sector', 'Implies(And(%s > %s, c1 == %s, c0 < %s - %s), out[0] * %s == 120 * %s + 60 * (c2 - c0))' % (
+                   MAX, EPS, MAX, MAX, EPS, DELTA, DELTA)),
+               ('hue_blue_sector', 'Implies(And(%s > %s, c2 == %s, c0 < %s - %s, c1 < %s - %s), out[0] * %s == 240 * %s + 60 * (c0 - c1))' % (
+                   MAX, EPS, MAX, MAX, EPS, MAX, EPS, DELTA, DELTA))])
     # grey colours, bit-exact (kind F): saturation exactly 0, value = the grey level, and the hue is a number
     d.shim('glm_hsvColor_grey_' + tag, 'void', c3, 'auto r = glm::hsvColor(%s); %s' % (mk3, vec_store(3, 'r')), outs=[(T, 'out', 3)])
     F('glm_hsvColor_grey_' + tag, 'glm::hsvColor(vec3)  grey colours of the RGB cube  ' + GTX,
@@ -233,7 +274,7 @@ for tag, bits, pw, one, zero in (('f32', 'll2c_f32_bits', 'LL2C_LIBM_powf', '1.0
     F('glm_rgbColor_grey_' + tag, 'glm::rgbColor(vec3)  saturation 0  ' + GTX,
       ensures=[('zero_saturation_gives_v_v_v_bitwise', '!(s == %s) || (%s)' % (zero, ' && '.join(same('out[%d]' % i, 'v') for i in range(3))))])
     shim_v('glm_rgbColor_' + tag, 3, h3, 'glm::rgbColor(%s)' % mkh)
-    K = L(1.0 / 60.0) if tag == 'f64' else "flit(%r, 'f32')" % (float.fromhex('0x1.111112p-6'),)   # T(1) / T(60) rounded to T
+    K = L(1.0 / 60.0)   # T(1) / T(60): 1/60 correctly rounded to T (0x1.111112p-6f / 0x1.1111111111111p-6)
     SECT = 'floor(h * %s)' % K
     FRAC = '(h * %s - %s)' % (K, SECT)
     p_, q_, t_ = 'v * (1 - s)', 'v * (1 - s * %s)' % FRAC, 'v * (1 - s * (1 - %s))' % FRAC
@@ -245,7 +286,8 @@ for tag, bits, pw, one, zero in (('f32', 'll2c_f32_bits', 'LL2C_LIBM_powf', '1.0
               [('channels_in_unit_interval', 'And([And(x >= 0, x <= 1) for x in out])')])
     shim_v('glm_hsv_roundtrip_' + tag, 3, c3, 'glm::rgbColor(glm::hsvColor(%s))' % mk3)
     R('glm_hsv_roundtrip_' + tag, 'glm::rgbColor(glm::hsvColor(vec3))  ' + GTX, requires=CUBE + NONGREY,
-      ensures=[('round_trip_within_1e_minus_5', 'And([absr(out[i] - %s[i]) <= R(1) / 10**5 for i in range(3)])' % lst(C3))])
+      ensures=[('round_trip_within_%s' % ('1e_minus_6' if tag == 'f32' else '1e_minus_14'),
+                'And([absr(out[i] - %s[i]) <= R(1) / 10**%d for i in range(3)])' % (lst(C3), 6 if tag == 'f32' else 14))])
 
     # ------------------------------------------------------------------------------------------------------------------
     # 5. gtc/color_space: sRGB transfer curves
@@ -272,21 +314,24 @@ for tag, bits, pw, one, zero in (('f32', 'll2c_f32_bits', 'LL2C_LIBM_powf', '1.0
             for i in range(3):
                 x, o = Cn[i], 'out[%d]' % i
                 ens += [('zero_maps_to_zero_%d' % i, 'Implies(%s == 0, %s == 0)' % (x, o)),
-                        ('linear_segment_is_12_92_x_%d' % i, 'Implies(And(%s >= 0, %s < %s), And(absr(%s - %s * %s) <= %s * %s, %s >= 0, %s <= 1))' % (
-                            x, x, THR_L, o, D1292, x, TOL, x, o, o)),
+                        ('linear_segment_is_12_92_x_%d' % i, 'Implies(And(%s > 0, %s < %s), And(absr(%s / %s - %s) <= %s, %s >= 0, %s <= 1))' % (
+                            x, x, THR_L, o, x, D1292, TOL, o, o)),
                         ('power_segment_is_1_055_pow_minus_0_055_%d' % i,
                          'Implies(And(%s >= %s, %s <= 1), absr(%s - (%s * pow(%s, %s) - %s)) <= %s * (1 + pow(%s, %s)))' % (
                              x, THR_L, x, o, D1055, x, EXPO, D055, TOL, x, EXPO))]
             ens.append(('monotone_on_linear_segment', 'Implies(And(c0 >= 0, c0 <= c1, c1 < %s), out[0] <= out[1])' % THR_L))
             R(nm, real, requires=req, ensures=ens + alpha_R)
             d.shim(nm.replace('glm_', 'glm_bits_'), 'void', ins, 'auto r = glm::convertLinearToSRGB(%s%s); %s' % (mk, garg, vec_store(Ln, 'r')), outs=[(T, 'out', Ln)])
-            PEXP = ('%s / gamma' % one) if gam else CL(0.41666)
-            fens = []
-            for i in range(3):
-                x, o = Cn[i], 'out[%d]' % i
-                fens += [('zero_maps_to_zero_%d' % i, '!(%s == %s) || %s == %s' % (x, zero, o, zero)),
-                         ('one_maps_to_one_if_libm_pow_of_1_is_1_%d' % i, '!(%s == %s) || %s(%s, %s) != %s || %s == %s' % (x, one, pw, one, PEXP, one, o, one))]
-            F(nm.replace('glm_', 'glm_bits_'), real + '  bit-exact', requires=[('gamma_positive', 'gamma > %s' % zero)] if gam else [], ensures=fens + alpha_F)
+            # explicit gamma: the exponent is the float quotient 1 / Gamma; SAT cannot prove two separately encoded IEEE dividers
+            # equivalent (probed: 300 s timeout), so the division is abstracted as the same uninterpreted function in code and clause
+            PEXP = ('SPEC_FDIV%s(%s, gamma)' % (W, one)) if gam else CL(0.41666)
+            fens = [('zero_maps_to_zero_%d' % i, '!(%s == %s) || out[%d] == %s' % (Cn[i], zero, i, zero)) for i in range(3)]
+            # C Annex F: pow(+1, y) = 1 for every y; pow is an uninterpreted function under CBMC, so the clause assumes exactly this
+            # fact about the one application it needs (natively, in the replay, LL2C_LIBM_pow is the real libm function)
+            fens.append(('one_maps_to_one_given_libm_pow_of_1_is_1', '%s(%s, %s) != %s || (%s)' % (pw, one, PEXP, one, ' && '.join(
+                '(!(%s == %s) || out[%d] == %s)' % (Cn[i], one, i, one) for i in range(3)))))
+            F(nm.replace('glm_', 'glm_bits_'), real + '  bit-exact', requires=[('gamma_positive', 'gamma > %s' % zero)] if gam else [], ensures=fens + alpha_F,
+              uf_float=('fdiv',) if gam else ())
             # ---- sRGB -> linear
             nm = 'glm_convertSRGBToLinear%s_v%d_%s' % (gs, Ln, tag)
             real = 'glm::convertSRGBToLinear(vec%d%s)  compute_srgbToRgb  %s' % (Ln, ', Gamma' if gam else '', GTC)
@@ -295,18 +340,18 @@ for tag, bits, pw, one, zero in (('f32', 'll2c_f32_bits', 'LL2C_LIBM_powf', '1.0
             for i in range(3):
                 x, o = Cn[i], 'out[%d]' % i
                 ens += [('zero_maps_to_zero_%d' % i, 'Implies(%s == 0, %s == 0)' % (x, o)),
-                        ('linear_segment_is_x_over_12_92_%d' % i, 'Implies(And(%s >= 0, %s <= %s), And(absr(%s * %s - %s) <= %s * %s, %s >= 0, %s <= 1))' % (
-                            x, x, THR_S, o, D1292, x, TOL, x, o, o)),
+                        ('linear_segment_is_x_over_12_92_%d' % i, 'Implies(And(%s > 0, %s <= %s), And(absr(%s * %s / %s - 1) <= %s, %s >= 0, %s <= 1))' % (
+                            x, x, THR_S, o, D1292, x, TOL, o, o)),
                         ('power_segment_positive_%d' % i, 'Implies(%s > %s, %s > 0)' % (x, THR_S, o))]
             ens.append(('monotone_on_linear_segment', 'Implies(And(c0 >= 0, c0 <= c1, c1 <= %s), out[0] <= out[1])' % THR_S))
             R(nm, real, requires=req, ensures=ens + alpha_R)
             d.shim(nm.replace('glm_', 'glm_bits_'), 'void', ins, 'auto r = glm::convertSRGBToLinear(%s%s); %s' % (mk, garg, vec_store(Ln, 'r')), outs=[(T, 'out', Ln)])
             PEXP = 'gamma' if gam else CL(2.4)
-            fens = []
-            for i in range(3):
-                x, o = Cn[i], 'out[%d]' % i
-                fens += [('zero_maps_to_zero_%d' % i, '!(%s == %s) || %s == %s' % (x, zero, o, zero)),
-                         ('one_maps_to_one_if_libm_pow_of_1_is_1_%d' % i, '!(%s == %s) || %s(%s, %s) != %s || %s == %s' % (x, one, pw, one, PEXP, one, o, one))]
+            fens = [('zero_maps_to_zero_%d' % i, '!(%s == %s) || out[%d] == %s' % (Cn[i], zero, i, zero)) for i in range(3)]
+            # C Annex F: pow(+1, y) = 1 for every y; pow is an uninterpreted function under CBMC, so the clause assumes exactly this
+            # fact about the one application it needs (natively, in the replay, LL2C_LIBM_pow is the real libm function)
+            fens.append(('one_maps_to_one_given_libm_pow_of_1_is_1', '%s(%s, %s) != %s || (%s)' % (pw, one, PEXP, one, ' && '.join(
+                '(!(%s == %s) || out[%d] == %s)' % (Cn[i], one, i, one) for i in range(3)))))
             F(nm.replace('glm_', 'glm_bits_'), real + '  bit-exact', requires=[('gamma_positive', 'gamma > %s' % zero)] if gam else [], ensures=fens + alpha_F)
         # default overload == explicit overload with the standard's gamma 2.4 (sRGB -> linear), bitwise
         nm = 'glm_convertSRGBToLinear_default_is_gamma_2_4_v%d_%s' % (Ln, tag)
@@ -317,10 +362,10 @@ for tag, bits, pw, one, zero in (('f32', 'll2c_f32_bits', 'LL2C_LIBM_powf', '1.0
     # linear segments are mutually inverse on their own branch (composed shims), to the accuracy of the two literals
     shim_v('glm_srgb_roundtrip_linear_segment_' + tag, 3, c3, 'glm::convertSRGBToLinear(glm::convertLinearToSRGB(%s))' % mk3)
     R('glm_srgb_roundtrip_linear_segment_' + tag, 'glm::convertSRGBToLinear(glm::convertLinearToSRGB(vec3))  linear segment  ' + GTC,
-      ensures=[('identity_to_1e_minus_6_relative_%d' % i, 'Implies(And(c%d >= 0, c%d < %s), absr(out[%d] - c%d) <= %s * c%d)' % (i, i, THR_L, i, i, TOL, i)) for i in range(3)])
+      ensures=[('identity_to_1e_minus_6_relative_%d' % i, 'Implies(And(c%d > 0, c%d < %s), absr(out[%d] / c%d - 1) <= %s)' % (i, i, THR_L, i, i, TOL)) for i in range(3)])
     shim_v('glm_srgb_roundtrip_inv_linear_segment_' + tag, 3, c3, 'glm::convertLinearToSRGB(glm::convertSRGBToLinear(%s))' % mk3)
     R('glm_srgb_roundtrip_inv_linear_segment_' + tag, 'glm::convertLinearToSRGB(glm::convertSRGBToLinear(vec3))  linear segment  ' + GTC,
-      ensures=[('identity_to_1e_minus_6_relative_%d' % i, 'Implies(And(c%d >= 0, c%d <= R(40449) / 10**6), absr(out[%d] - c%d) <= %s * c%d)' % (i, i, i, i, TOL, i)) for i in range(3)])
+      ensures=[('identity_to_1e_minus_6_relative_%d' % i, 'Implies(And(c%d > 0, c%d <= R(40449) / 10**6), absr(out[%d] / c%d - 1) <= %s)' % (i, i, i, i, TOL)) for i in range(3)])
 
 # lowp specialisation (float only): Ian Taylor's square-root approximation
 lp = vec_ins(3, 'f32', 'c')
@@ -340,21 +385,62 @@ for fn, real, kw in rcontracts:
 for fn, real, kw in fcontracts:
     if fn in LEFT_OUT:
         continue
-    kw.setdefault('timeout', 300)
+    kw.setdefault('timeout', 900 if fn in THOROUGH else 300)
     kw.setdefault('unwind', 2)
     kw.setdefault('backends', ('sat',))
     kw.setdefault('tier', 'thorough' if fn in THOROUGH else 'quick')
     P.contract(fn, real, kind='F', **kw)
 
 P.level_text = ('over the reals (machine arithmetic treated as mathematical): the real-valued functions computed by the code clang extracts '
-                'from /repo are the textbook linear maps (YCoCg, YCoCg-R, saturation, luminosity), are mutually inverse, follow the sRGB '
-                'linear segment and the HSV sector formulas; plus bit-exact CBMC contracts: the integer YCoCg-R lifting is lossless for '
-                'every triple of every integer element type, alpha / 0 / 1 of the sRGB curves, grey branches of HSV')
-P.level_note = ('trusted: clang-14 lowering, tools/ll2smt.py symbolic execution, z3 nlsat / sympy Groebner, rspec.py, pow as an uninterpreted '
-                'function with pow(x,1)=x, pow(1,y)=1, pow(0,y>0)=0, pow(x>0,y)>0; for kind F: ll2c (T-checked), CBMC float model, pow '
-                'uninterpreted (the clause assumes powf(1,y)==1 where it needs it). R obligations are blind to rounding, overflow, NaN/Inf')
+                'from /repo are the textbook maps: rgb2YCoCg / YCoCg2rgb and the float rgb2YCoCgR / YCoCgR2rgb are the Malvar-Sullivan matrices and '
+                'mutually inverse, saturation(s) = s I + (1 - s) 1 w^T with the Rec. 709 weights (grey fixed, identity at s = 1), luminosity is the '
+                'dot product with the three documented ratios, hsvColor / rgbColor follow the Smith sector formulas on the RGB cube (value = max, '
+                'saturation = (max - min) / max in [0,1], hue in [0,360)) and rgbColor(hsvColor(c)) = c to 1e-6 (float) / 1e-14 (double) for every '
+                'non-grey c of the cube, the sRGB curves follow the IEC 61966-2-1 linear segment (and the 1.055 x^(1/gamma) - 0.055 form of the power '
+                'segment, pow uninterpreted), fix 0, leave alpha untouched and are mutually inverse on the linear segment; plus bit-exact CBMC '
+                'contracts over all bit patterns: the integer YCoCg-R lifting is lossless in both directions for every triple of '
+                'int8..int64 / uint8..uint64 and produces the triple of the paper, alpha / 0 / 1 of every sRGB overload, grey branches of HSV, '
+                'luminosity as the float sum of the three float products')
+P.level_note = ('trusted: clang-14 lowering, tools/ll2smt.py symbolic execution (floor and float->int conversion interpreted on unbounded integers), '
+                'z3 QF_NRA / sympy Groebner, rspec.py, pow as an uninterpreted function with pow(x,1)=x, pow(1,y)=1, pow(0,y>0)=0, pow(x>0,y)>0; '
+                'for kind F: ll2c (T-checked), CBMC float model incl. its sqrt model (lowp), pow uninterpreted (the one_maps_to_one clauses assume '
+                'pow(1,y)==1 of the one application they need), float products (luminosity) and the quotient 1/Gamma (explicit-gamma overloads) '
+                'abstracted as uninterpreted functions shared by code and clause. R obligations are blind to rounding, overflow, NaN/Inf: '
+                'every "==" between reals is exact for the rationals of the float literals, tolerances are stated in the clause names')
 P.technique = ('contracts over the reals on mechanically extracted LLVM IR: symbolic execution + z3 QF_NRA / sympy Groebner, '
                'CBMC contracts for bit-exact branch facts')
 P.design_ref = 'DESIGN.md sections 5 and 6 C19'
-P.assumptions = ['machine arithmetic treated as mathematical (IEEE float/double identified with the reals)']
-P.not_covered = []
+P.assumptions = ['machine arithmetic treated as mathematical (IEEE float/double identified with the reals)',
+                 'pow(+1, y) == 1 for libm pow / powf (C Annex F.10.4.4), assumed inside the one_maps_to_one clauses for the single application '
+                 'pow(1, exponent) the code performs; pow(x,1)=x, pow(1,y)=1, pow(0,y>0)=0, pow(x>0,y)>0 as ground axioms in kind R',
+                 'the documented luminosity ratios are read from the documentation comment of glm::luminosity in glm/gtx/color_space.hpp of the '
+                 'tree under verification; the Rec. 709 weights (0.2126, 0.7152, 0.0722) of saturation and the sRGB constants (12.92, 1.055, '
+                 '0.055, 0.0031308, 0.04045) are taken from the standards',
+                 'integer YCoCg-R on signed element types, "all triples": signed overflow wraps (what the extracted IR does on x86); without that '
+                 'assumption (overflow = poison) the same identity is proved for channels of n-1 bits, where no step overflows',
+                 'epsilon neighbourhoods the code treats as exact ties are excluded from the HSV sector clauses by hypothesis (max <= epsilon: black; '
+                 'a channel within epsilon of the maximum; 0 < saturation <= epsilon in rgbColor); the round-trip clause covers them with its tolerance']
+P.not_covered = [
+    'sRGB round trip through the power segment "to within the accuracy of the transfer-curve constants": needs a numeric pow (pow is an '
+    'uninterpreted function; pow(pow(x,a),1/a) = x is not among the ground axioms and 1/(1/gamma) is not gamma in floats)',
+    'sRGB monotonicity and the range [0,1] on the power segment, monotonicity across the branch point 0.0031308 / 0.04045 (numeric pow)',
+    'convertSRGBToLinear power segment against the textbook ((s + 0.055) / 1.055)^gamma: the argument the code passes to pow differs from the '
+    'textbook argument by the rounding of the constants, hence is a different application of the uninterpreted pow; only positivity is proved',
+    'convertLinearToSRGB default overload: the exponent literal is 0.41666, not 1/2.4 = 0.41666..6 (relative deviation of the result up to 4e-5 at '
+    'the dark end); covered by "accuracy of the constants" of the statement, not checkable with an uninterpreted pow',
+    'sRGB inputs in (0.040449936, 0.04045]: on the linear segment of convertSRGBToLinear, but their images (>= 0.0031308) are on the power segment of '
+    'convertLinearToSRGB (0.04045 / 12.92 = 0.00313080495 > 0.0031308: the two documented thresholds are not images of each other), so the '
+    'composed linear-segment clause stops at 0.040449',
+    'lowp specialisation of convertLinearToSRGB (square-root approximation): only 0 -> 0 and 1 -> 1 bit-exact; its distance to the exact curve '
+    '(the existing test allows 0.1) and its monotonicity need numeric sqrt/pow',
+    'vec1 / vec2 instantiations of the sRGB templates, qualifiers other than defaultp (apart from the lowp vec3 specialisation), SIMD',
+    'hsvColor / rgbColor at sector boundaries in floating point (rounding of h * (1/60), 60 * (g - b) / delta); hue outside [0,360) (a negative hue is '
+    'not wrapped: sector -1 falls into the default case), h = 360 exactly',
+    'integer instantiations of the plain rgb2YCoCg / YCoCg2rgb (integer division by 4 and 2: lossy by construction, e.g. (0,127,7) -> (64,-3,62) -> '
+    '(-1,126,5)); the statement claims losslessness only for the -R pair',
+    'unsigned YCoCg-R: for R < B or G < floor((R+B)/2) the stored Co / Cg wrap modulo 2^n and are halved with a logical shift, so the intermediate '
+    'triple is not the YCoCg-R triple of the paper (the round trip is still the identity and is proved for all triples)',
+    'rounding error of every float formula (R is exact-real); NaN / Inf inputs outside the bit-exact contracts',
+]
+for k, v in sorted(LEFT_OUT.items()):
+    P.not_covered.append('%s: %s' % (k, v))
